@@ -77,7 +77,7 @@ fn c02_scn(name: &str, with_password: bool, full: bool) -> ChatScn {
                             acts.push(Act::Send(i, "NICK y".into()));
                         }
                     } else {
-                        for l in ["NICK x".to_string(), "NICK y".to_string(), format!("USER u{} 0 * :r", i), "QUIT".to_string()] {
+                        for l in ["NICK x".to_string(), "NICK y".to_string(), "USER uu 0 * :r".to_string(), "QUIT".to_string()] {
                             acts.push(Act::Send(i, l));
                         }
                         if with_password {
@@ -262,6 +262,19 @@ pub struct C03 {
 }
 
 impl Scenario for C03 {
+    /// Which lines the fresh connection has sent so far (as a set) is part of the state key:
+    /// two histories that leave the same visible state but differ in what has already been
+    /// tried are explored separately - a connection may remember an earlier attempt in a way
+    /// the published state does not show.
+    fn key_hist(&self, hist: &[Act]) -> u64 {
+        let mut seen: BTreeSet<&str> = BTreeSet::new();
+        for a in hist {
+            if let Act::Send(1, l) = a {
+                seen.insert(l.as_str());
+            }
+        }
+        1 + (crate::canon::hash128(&seen) as u64 >> 1)
+    }
     fn name(&self) -> String {
         self.inner.name()
     }
